@@ -147,7 +147,10 @@ func (o *OCIDir) manifestGet(_ context.Context, r ref.Ref) (manifest.Manifest, e
 
 // ManifestHead gets metadata about the manifest (existence, digest, mediatype, size)
 func (o *OCIDir) ManifestHead(ctx context.Context, r ref.Ref) (manifest.Manifest, error) {
-	index, err := o.readIndex(r, false)
+	// hold the lock until the file has been checked, the entry read from the index may be replaced and its manifest deleted in between
+	o.mu.Lock()
+	defer o.mu.Unlock()
+	index, err := o.readIndex(r, true)
 	if err != nil {
 		return nil, fmt.Errorf("unable to read oci index: %w", err)
 	}
